@@ -254,6 +254,22 @@ theorem origOf_fields (c : Cfg) (m : Down) :
 
 /-! ### case analyses of the decision functions -/
 
+theorem mem_synthAAAA (c : Cfg) (addrs : List RR) (ttl : Nat) (r : RR) :
+    r ∈ synthAAAA c addrs ttl ↔
+      ∃ p ∈ c.prefixes, ∃ x ∈ addrs, x.ip.length = 4 ∧ c.shouldExcludeAOnPrefix x.ip p = false ∧
+        r = { kind := '6', ttl := ttl, owner := x.owner, ip := embedIPv4 p.net.ip p.net.bits x.ip } := by
+  unfold synthAAAA
+  simp only [List.mem_flatMap, List.mem_filterMap]
+  constructor
+  · rintro ⟨p, hp, x, hx, hr⟩
+    by_cases hl : x.ip.length = 4
+    · cases he : c.shouldExcludeAOnPrefix x.ip p <;> simp [hl, he] at hr
+      exact ⟨p, hp, x, hx, hl, he, hr.symm⟩
+    · simp [hl] at hr
+  · rintro ⟨p, hp, x, hx, hl, he, rfl⟩
+    exact ⟨p, hp, x, hx, by simp [hl, he]⟩
+
+
 theorem chain_no6 (ans : List RR) : ∀ r ∈ chainOf ans, r.kind = '6' → False := by
   intro r hr h6
   have := (List.mem_filter.mp hr).2
